@@ -12,7 +12,7 @@ from vf.hlib.stubs import make_type_nt, plain
 ENC = ["cincoconfig.core.Config._set_value", "cincoconfig.core.Config._set_default_value",
        "cincoconfig.support.is_value_defined", "cincoconfig.support.reset_value"]
 
-FIELDS = ("i", "s", "lst", "dct", "pw", "sub.b", "ct.v", "nodef")
+FIELDS = ("i", "s", "lst", "dct", "pw", "sub.b", "ct.v", "nodef", "raw", "rawd")
 
 
 class Counter:
@@ -37,6 +37,8 @@ def _schema(counter):
     t.v = IntField(default=8, min=0)
     schema.ct = make_type_nt(t, "T")
     schema.nodef = IntField(min=0)
+    schema.raw = ListField(default=[1, 2])          # untyped containers with constant defaults
+    schema.rawd = DictField(default={"k": 1})
     return schema
 
 
@@ -71,15 +73,17 @@ def _observe(cfg):
 
 
 def _ok_value(path, x):
-    return {"i": x, "s": "new", "lst": [x], "dct": {"k": x}, "pw": "secret", "sub.b": x, "ct.v": x, "nodef": x}[path]
+    return {"i": x, "s": "new", "lst": [x], "dct": {"k": x}, "pw": "secret", "sub.b": x, "ct.v": x, "nodef": x,
+            "raw": [x, "t"], "rawd": {"j": x}}[path]
 
 
 def _ok_obs(path, x):
     return ("secret",) if path == "pw" else _ok_value(path, x)
 
 
-BADV = {"i": -1, "s": 5, "lst": [-1], "dct": {"k": -1}, "pw": 5, "sub.b": "x", "ct.v": -1, "nodef": -1}
-DEFAULTS = {"i": 5, "lst": [1, 2], "dct": {"k": 1}, "pw": ("hello",), "sub.b": 6, "ct.v": 8, "nodef": None, "sub.c": 7}
+BADV = {"i": -1, "s": 5, "lst": [-1], "dct": {"k": -1}, "pw": 5, "sub.b": "x", "ct.v": -1, "nodef": -1, "raw": 5, "rawd": 5}
+DEFAULTS = {"i": 5, "lst": [1, 2], "dct": {"k": 1}, "pw": ("hello",), "sub.b": 6, "ct.v": 8, "nodef": None, "sub.c": 7,
+            "raw": [1, 2], "rawd": {"k": 1}}
 
 
 def _tree(path, value):
@@ -90,7 +94,7 @@ def _tree(path, value):
     return out
 
 
-OPS = ("set_ok", "set_bad", "load_with", "load_without", "reset", "reset_twice")
+OPS = ("set_ok", "set_bad", "load_with", "load_without", "reset", "reset_twice", "mutate_reset")
 
 
 def _step(fi: int, op_i: int, pre_set: bool, other_set: bool, x: int, y: int) -> bool:
@@ -138,6 +142,18 @@ def _step(fi: int, op_i: int, pre_set: bool, other_set: bool, x: int, y: int) ->
         expect[path] = (_ok_obs(path, x), True)
     elif op == "load_without":
         cfg.load_tree({"i2": 1} if False else {})  # a tree that does not mention the field (nor its parent map)
+    elif op == "mutate_reset":
+        # in-place mutation of the current (default or assigned) container value, then reset, then a fresh config
+        if path not in ("lst", "dct", "raw", "rawd"):
+            skip("containers only")
+        val = _get(cfg, path)
+        if isinstance(val, dict):
+            val["zz"] = 9
+        else:
+            val.append(9)
+        reset_value(cfg, path)
+        expect[path] = (DEFAULTS[path], False)
+        hold("op", plain(_get(schema(), path)) == DEFAULTS[path], "in-place mutation altered the declared default")
     elif op in ("reset", "reset_twice"):
         reset_value(cfg, path)
         if op == "reset_twice":
@@ -165,16 +181,16 @@ def _mk(fi: int):
     @obligation(prop="C12", name="machine_" + FIELDS[fi].replace(".", "_"), group="machine",
                 sites=("fresh", "state", "op"), encodes=ENC, budget={"quick": 200, "thorough": 500},
                 what="field %s: fresh defaults / not user-defined; then from a symbolic reachable state one of "
-                     "set-ok, set-bad, load with key, load without key, reset, reset twice vs the reference "
+                     "set-ok, set-bad, load with key, load without key, reset, reset twice, mutate-in-place-then-reset vs the reference "
                      "(value, user-defined) machine; every other field untouched" % FIELDS[fi])
     def ob(op_i: int, pre_set: bool, other_set: bool, x: int, y: int) -> bool:
         """
-        pre: 0 <= op_i < 6 and 0 <= x <= 1000 and 0 <= y <= 1000
+        pre: 0 <= op_i < 7 and 0 <= x <= 1000 and 0 <= y <= 1000
         post: _
         """
         if not (pre_set or other_set) and y:
             skip("y unused")
-        if OPS[op_i if 0 <= op_i < 6 else 0] not in ("set_ok", "load_with") and x:
+        if OPS[op_i if 0 <= op_i < 7 else 0] not in ("set_ok", "load_with") and x:
             skip("x unused")
         return _step(fi, op_i, pre_set, other_set, x, y)
 
@@ -210,6 +226,6 @@ def ctor_keywords(k_i: bool, k_lst: bool, k_sub: bool, x: int) -> bool:
     hold("ctor", obs["lst"] == (([x], True) if k_lst else ([1, 2], False)), "lst")
     hold("ctor", obs["sub.b"][0] == (x if k_sub else 6), "sub.b value")
     hold("ctor", is_value_defined(cfg, "sub") == k_sub, "sub user-defined status")
-    for p in ("dct", "pw", "ct.v", "nodef"):
+    for p in ("dct", "pw", "ct.v", "nodef", "raw", "rawd"):
         hold("ctor", obs[p] == (DEFAULTS[p], False), lambda: "unsupplied field %s: %r" % (p, obs[p]))
     return True
